@@ -13,7 +13,12 @@ Tie:
 Oracle (from the property statement): nothing escapes `process_events`; the processing stays within the budget B(program);
 an injected error produces a `ColangError` event; observer flows (own interaction loops, unrelated to the faulty flow) emit
 their marker for EVERY external event, including the one during which the error happens and the next one; every real `slide`
-call on an acyclic flow makes at most |elements|+1 iterations (T1 on the implementation).
+call on an acyclic flow makes at most |elements|+1 iterations (T1 on the implementation);
+"fails only that flow": every flow INSTANCE in which a statement raised (slide or matching phase) is STOPPED, has no head left and
+its FlowFailed event was processed by the end of the same `process_events` call; "is reported as a ColangError event": per call at
+least as many ColangError events are processed as errors were raised.
+Histories: the error may appear only in the K-th instance of the activated flow (global instance counter), the walk to the error
+may be repeated after it (the same events again), observers may precede the faulty flow and may react through a sub-flow.
 """
 import asyncio
 import contextlib
@@ -32,7 +37,13 @@ RULE = ("program = faulty flow (3-7 statements from: assignment, action send, ma
         "variable, wrong type, invalid regex, bad send argument, bad if condition, and raised-while-matching: comparison type "
         "mismatch / invalid regex / bad expression in match arguments), started as @active (activated), by a raw StartFlow, or by an "
         "activated launcher; plus one @active observer flow per external event name in its own interaction loop; plus activated "
-        "flows that finish/fail immediately; plus all shipped library flows (checker only). non-trivial = the erroneous statement was "
+        "flows that finish/fail immediately; plus all shipped library flows (checker only). Further error kinds: division by zero, index "
+        "out of range, priority out of range, return/log expression, unknown event of a flow/action reference (AssertionError / "
+        "ColangSyntaxError, i.e. not a Colang exception class), errors raised while a pattern-failure handler is installed (when-pattern "
+        "with action/flow arguments; match in when/or-when/else), two errors in one candidate scan. Every program also with a longer "
+        "history: error only in the K-th (2nd/3rd) instance of the activated flow, the walk to the error repeated after it, observers "
+        "ahead of the faulty flow or reacting through a sub-flow; loops with break/continue; start by a complete raw StartFlow. "
+        "non-trivial = the erroneous statement was "
         "reached (an exception was raised inside the interpreter) or the case is an immediate finish/fail of an activated flow.")
 TRUSTED_BASE = [
     "translator harness/translate/c10.py (element classification table; AST check of slide()'s dispatch)",
@@ -44,7 +55,13 @@ TRUSTED_BASE = [
 ASSUMPTIONS = [
     "whole-round termination (T2 run_terminates) is a theorem about the token abstraction RoundMachine, not about CoreVM; programs the verified "
     "checker roundRanked rejects are outside the hypothesis (no termination verdict for them)",
-    "ErrContain does not model the recursive child/action clean-up of _abort_flow/_finish_flow (C06) nor forked-head recursion",
+    "the ErrContain FRAGMENT does not model the recursive child/action clean-up of _abort_flow/_finish_flow nor forked-head recursion; "
+    "both are covered by the CoreVM theorems of phase 4 (frame through _abort_flow / _finish_flow / slide / _advance_head_front, vm_advance_frame), "
+    "which rest on CoreVM being the interpreter (C09 translator + correspondence) and are re-checked on the real FlowStates by the run-time frame "
+    "comparison around every top-level _advance_head_front call",
+    "no-propagation is a THEOREM only for faulty LEAF instances (vm_leaf_error_never_propagates; tag faulty-instance:leaf) — for instances with child "
+    "flows or actions only the provenance clause of vm_error_contained is proved; raise sites outside every try block exist in the pinned tree "
+    "(three open findings) and are covered by the oracle 'nothing escapes / every observer reacts'",
     "the sliding graph over-approximates: dynamic `send $ref.X()` of non-action references is treated as sliding",
     "programs in which an activated flow completes a full pass on internally generated events only (e.g. `await` of a flow that "
     "finishes immediately) are outside the hypothesis 'loops contain a waiting statement' and are not generated",
@@ -56,7 +73,8 @@ MATCH_SAMPLE_CAP = 12
 ROUND_REPLAY_CAP = 10
 
 MATCH_KINDS = ("match-cmp", "match-regex", "match-expr", "match-and-first", "match-and-second", "match-or-first", "match-or-second",
-               "match-when-sibling", "match-child", "match-child-await", "match-grandchild")
+               "match-when-sibling", "match-child", "match-child-await", "match-grandchild", "match-when-else", "match-when-or-else",
+               "match-and-both", "match-child-both")
 ERR_STMT = {
     "bad-expr": ['$e = "t" + 3'],
     "unknown-var": ["$e = $nope + 1"],
@@ -78,11 +96,45 @@ ERR_STMT = {
     "match-child": ["start helper_m", "match M(x=$nope.value)"],
     "match-child-await": ["start helper_m", "start helper_m2", 'match M(x=regex("("))'],
     "match-grandchild": ["start helper_g", "match M(x=less_than(3))"],
+    # further error sources of ordinary statements (value errors of other operators, statements other than assignments)
+    "div-zero": ["$e = 1 / 0"],
+    "index-range": ["$l = [1, 2]", "$e = $l[5]"],
+    "priority-range": ["priority 2.0"],
+    "return-bad-expr": ['return "t" + 3'],
+    "log-bad-expr": ["log 1 / 0"],
+    # errors that are NOT raised as one of the Colang exception classes (AssertionError of FlowState.get_event) / ColangSyntaxError at run time
+    "ref-bad-event-match": ["start helper_h as $h", "match $h.Nope()"],
+    "ref-bad-event-send": ["start helper_h as $h", "send $h.Nope()"],
+    "action-bad-event": ['send UtteranceBotAction(script="a").Nope()'],
+    # the error is raised while a pattern-failure handler (catch label) is installed: in the pattern of a `when` (slide phase) ...
+    "when-action-bad-arg": ['when UtteranceBotAction(script="t" + 3)', "  $e = 1", "else", "  $e = 2"],
+    "when-flow-bad-arg": ['when helper_w(p="t" + 3)', "  $e = 1", "or when NeverW()", "  $e = 2", "else", "  $e = 3"],
+    # ... or while matching, with an `else` branch the flow could (wrongly) continue in
+    "match-when-else": ["when M(x=$nope.value)", "  $e = 1", "else", "  $e = 2"],
+    "match-when-or-else": ["when M(x=less_than(3))", "  $e = 1", "or when NeverD()", "  $e = 2", "else", "  $e = 3"],
+    # TWO errors in one candidate scan (two heads of the faulty flow / the faulty flow and a child flow): one report each
+    "match-and-both": ["match M(x=$nope.value) and M(x=less_than(3))"],
+    "match-child-both": ["start helper_e", "match M(x=$nope.value)"],
+    # errors raised OUTSIDE every try block of the pinned tree (open findings error-raised-while-handling-match /
+    # error-raised-by-head-advance-outside-try / error-raised-while-processing-internal-event; contained once fixes/C10-handle-match-
+    # error-contained.diff, C10-head-advance-inside-try.diff, C10-startflow-requires-flow-id.diff are applied): too many positional
+    # parameters in the start of a flow (_start_flow, called from _handle_event_matching); a match statement whose event NAME cannot be
+    # computed, directly behind a waiting statement (`head.position += 1` of _advance_head_front fires the head-changed callback before
+    # the try block starts; behind a non-waiting statement the same statement is reached inside slide and contained); an internal
+    # StartFlow event without flow_id (KeyError in _process_internal_events_without_default_matchers)
+    "start-too-many-args": ["await helper_p(1, 2, 3)"],
+    "match-bad-action-event": ['match UtteranceBotAction(script="a").Nope()'],
+    "send-startflow-no-id": ["send StartFlow()"],
 }
 ERR_FLOWS = {
+    "start-too-many-args": ["flow helper_p $a", "  match NeverHP()", ""],
     "match-child": ["flow helper_m", "  match M()", "  match NeverH()", ""],
     "match-child-await": ["flow helper_m", "  match M()", "  match NeverH()", "", "flow helper_m2", "  match M(x=\"str\")", "  match NeverH()", ""],
     "match-grandchild": ["flow helper_m", "  match M()", "  match NeverH()", "", "flow helper_g", "  start helper_m", "  match M() and M(x=\"str\")", "  match NeverH()", ""],
+    "ref-bad-event-match": ["flow helper_h", "  match NeverHH()", ""],
+    "ref-bad-event-send": ["flow helper_h", "  match NeverHH()", ""],
+    "when-flow-bad-arg": ["flow helper_w $p", "  match NeverHW()", ""],
+    "match-child-both": ["flow helper_e", '  match M(x=regex("("))', "  match NeverH()", ""],
 }
 M_EVENT = {"type": "M", "x": "str"}
 
@@ -91,7 +143,7 @@ M_EVENT = {"type": "M", "x": "str"}
 
 def stmt_pool(rng, i):
     """-> (lines, events needed to pass the statement, waits?)"""
-    k = rng.choice(["assign", "assign", "send", "match", "match", "matchx", "ifelse", "while", "when", "await", "log", "action"])
+    k = rng.choice(["assign", "assign", "send", "match", "match", "matchx", "ifelse", "while", "when", "await", "log", "action", "whilebreak", "whilecontinue"])
     if k == "assign":
         return [f"$v{i} = {i} + 1"], [], False, k
     if k == "send":
@@ -104,6 +156,11 @@ def stmt_pool(rng, i):
         return [f"if $v{i} == 1", f"  $w{i} = 1", "else", f"  $w{i} = 2"], [], False, k
     if k == "while":
         return [f"$i{i} = 0", f"while $i{i} < 2", f"  match W{i}()", f"  $i{i} = $i{i} + 1"], [{"type": f"W{i}"}, {"type": f"W{i}"}], True, k
+    if k == "whilebreak":
+        return [f"$i{i} = 0", "while True", f"  match W{i}()", f"  $i{i} = $i{i} + 1", f"  if $i{i} >= 2", "    break"], [{"type": f"W{i}"}, {"type": f"W{i}"}], True, k
+    if k == "whilecontinue":
+        return [f"$i{i} = 0", f"while $i{i} < 2", f"  match W{i}()", f"  $i{i} = $i{i} + 1", f"  if $i{i} < 9", "    continue", f"  $u{i} = 1"], \
+            [{"type": f"W{i}"}, {"type": f"W{i}"}], True, k
     if k == "when":
         return [f"when C{i}()", f"  $w{i} = 1", f"or when D{i}()", f"  $w{i} = 2"], [{"type": f"C{i}"}], True, k
     if k == "await":
@@ -113,10 +170,38 @@ def stmt_pool(rng, i):
     return [f'start UtteranceBotAction(script="hi {i}")'], [], False, k
 
 
-def build_program(stmts, inject_at, kind, mode, nested):
-    """Colang source + event script for one case."""
+def observer_flows(names, style):
+    """one observer per external event name, each in its own interaction loop. style "direct": `match X` / `send SeenX`;
+    style "sub": the observer reacts through a sub-flow (its reaction needs internal events of the same processing round)"""
+    src = []
+    for n, name in enumerate(names):
+        if style == "sub":
+            src += ["@active", f'@loop("obs{n}")', f"flow obs_{name}", f"  match {name}()", f"  await react_{n}", "",
+                    f"flow react_{n}", f"  send Seen{name}()", ""]
+        else:
+            src += ["@active", f'@loop("obs{n}")', f"flow obs_{name}", f"  match {name}()", f"  send Seen{name}()", ""]
+    return src
+
+
+def build_program(stmts, inject_at, kind, mode, nested, opts=None):
+    """Colang source + event script for one case.
+
+    opts (all optional; the defaults give the plain program):
+      at_instance K >= 2   the erroneous statement is guarded by a global instance counter: the first K-1 instances of the (activated)
+                           flow run to their end and restart, the error appears in the K-th instance (and in every later one)
+      relap True           after the error (and `Next`) the script walks to the erroneous statement a second time ("later events" that
+                           are the SAME events again; an activated flow that failed after its first wait has been restarted and fails again)
+      obs_first True       the observer flows are defined (and activated) BEFORE the faulty flow
+      obs_style "sub"      observers react through a sub-flow
+    """
+    opts = opts or {}
+    at_instance = opts.get("at_instance", 1) if mode in ("active", "launcher") else 1
+    if not any(w for (_l, _e, w, _k) in stmts):
+        at_instance = 1  # a flow without any waiting statement never completes a pass (immediate-finish guard): no later instance
     body, events, waits_before = [], [], 0
     subs = []
+    if at_instance > 1:
+        body += ["global $cnt", "if $cnt == None", "  $cnt = 0", "$cnt = $cnt + 1"]
     for idx, (lines, evs, waits, sk) in enumerate(stmts):
         if idx == inject_at:
             break
@@ -130,17 +215,34 @@ def build_program(stmts, inject_at, kind, mode, nested):
         err_lines = ["if True"] + ["  " + l for l in err_lines]
     elif nested == "while":
         err_lines = ["$n = 0", "while $n < 1"] + ["  " + l for l in err_lines] + ["  $n = $n + 1"]
+    if at_instance > 1:
+        err_lines = [f"if $cnt >= {at_instance}"] + ["  " + l for l in err_lines]
     body += err_lines
     for idx, (lines, evs, waits, sk) in enumerate(stmts):
         if idx >= inject_at:
             body += lines
             if sk == "await":
                 subs.append(lines[0].split()[1])
-    script = [{"type": "Boot"}] + events
-    if kind in MATCH_KINDS:
-        script.append(dict(M_EVENT))
+    full_lap = [e for (_l, evs, _w, _k) in stmts for e in evs]
+    walk = [dict(e) for e in events] + ([dict(M_EVENT)] if kind in MATCH_KINDS else [])
+    script = [{"type": "Boot"}]
+    for _ in range(at_instance - 1):
+        script += [dict(e) for e in full_lap]
+    script += walk
     script.append({"type": "Next"})
+    if opts.get("relap"):
+        script += [dict(e) for e in walk] + [{"type": "Next"}]
+    names = []
+    for e in script:
+        if e["type"] not in names:
+            names.append(e["type"])
+    obs_src = observer_flows(names, opts.get("obs_style", "direct"))
+    if mode == "launcher":
+        # "fails ONLY that flow": the launcher merely activated the faulty flow (it does not await it); it must still react afterwards
+        script.append({"type": "PingL"})
     src = []
+    if opts.get("obs_first"):
+        src += obs_src
     if mode == "active":
         src.append("@active")
     src.append("flow faulty")
@@ -149,21 +251,40 @@ def build_program(stmts, inject_at, kind, mode, nested):
     for s in subs:
         src += [f"flow {s}", f"  match S{s[3:]}()", ""]
     src += ERR_FLOWS.get(kind, [])
-    names = []
-    for e in script:
-        if e["type"] not in names:
-            names.append(e["type"])
-    for n, name in enumerate(names):
-        src += ["@active", f'@loop("obs{n}")', f"flow obs_{name}", f"  match {name}()", f"  send Seen{name}()", ""]
+    if not opts.get("obs_first"):
+        src += obs_src
     if mode == "launcher":
-        src += ["@active", "flow launcher", "  activate faulty", "  match NeverL()", ""]
+        src += ["@active", "flow launcher", "  activate faulty", "  match PingL()", "  send SeenPingL()", ""]
     src.append("flow main")
     if mode == "raw":
-        src.append('  send StartFlow(flow_id="faulty")')
+        src.append('  send StartFlow(flow_id="faulty")')  # incomplete internal event: the faulty flow is never started
+    elif mode == "raw-uid":
+        src.append('  send StartFlow(flow_id="faulty", flow_instance_uid="faulty_instance_1")')  # started, not activated, nobody awaits it
     src.append("  match Never()")
     meta = {"mode": mode, "kind": kind, "phase": "match" if kind in MATCH_KINDS else "slide", "waits_before": waits_before,
             "inject_at": inject_at, "nested": nested, "expect_error": True}
+    if at_instance > 1:
+        meta["at_instance"] = at_instance
+    for k in ("relap", "obs_first", "obs_style"):
+        if opts.get(k):
+            meta[k] = opts[k]
     return {"kind": "prog", "src": "\n".join(src) + "\n", "events": script, "meta": meta}
+
+
+def random_opts(rng, mode):
+    """a non-default combination of the history / observer options of `build_program`"""
+    while True:
+        o = {}
+        if mode in ("active", "launcher") and rng.random() < 0.5:
+            o["at_instance"] = rng.choice([2, 2, 3])
+        if rng.random() < 0.5:
+            o["relap"] = True
+        if rng.random() < 0.4:
+            o["obs_first"] = True
+        if rng.random() < 0.4:
+            o["obs_style"] = "sub"
+        if o:
+            return o
 
 
 QUICK_BODIES = [
@@ -214,7 +335,7 @@ def cascade_case(body, kid, name, extra_peer):
 
 
 def gen_cases(rng, tier):
-    n_prog = 36 if tier == "quick" else 420
+    n_prog = 40 if tier == "quick" else 420
     cases = [{"kind": "lib"}]
     for body, name in QUICK_BODIES:
         cases.append(quick_case(body, name, False))
@@ -226,17 +347,29 @@ def gen_cases(rng, tier):
     for p in range(n_prog):
         n = rng.randrange(3, 8)
         stmts = [stmt_pool(rng, i) for i in range(n)]
-        mode = rng.choice(["active", "active", "raw", "launcher"])
+        mode = rng.choice(["active", "active", "raw-uid", "launcher"])
+        if mode == "raw-uid" and rng.random() < 0.2:
+            mode = "raw"
         if mode == "launcher" and not stmts[0][2]:
             stmts[0] = ([f"match A0()"], [{"type": "A0"}], True, "match")
         # every position; the kinds rotate so that every (position, kind) pair is hit across programs (thorough: all kinds per position)
         for pos in range(n + 1):
-            ks = kinds if tier == "thorough" and p % 6 == 0 else [kinds[(p + pos) % len(kinds)], rng.choice(kinds)]
+            # (thorough: 35 full sweeps of all 33 kinds at every position -- as many (position, kind) pairs as the 70 sweeps of 20 kinds before)
+            ks = kinds if tier == "thorough" and p % 12 == 0 else [kinds[(p + pos) % len(kinds)], rng.choice(kinds)]
             for kind in dict.fromkeys(ks):
                 if mode == "launcher" and pos == 0:
                     continue  # the launcher itself would fail while starting (it is related to the faulty flow)
                 nested = rng.choice([None, None, None, "if", "while"]) if kind not in MATCH_KINDS else rng.choice([None, None, "if"])
                 cases.append(build_program(stmts, pos, kind, mode, nested))
+        # the same program with a longer history / other observers: error only in the K-th instance of the activated flow, the walk to
+        # the error repeated after it, observers ahead of the faulty flow / reacting through a sub-flow (every position, rotating kinds)
+        for pos in range(n + 1):
+            for kind in dict.fromkeys([kinds[(p * 7 + pos * 3 + 1) % len(kinds)]] + ([rng.choice(kinds)] if tier == "quick" or p % 2 == 0 else [])):
+                opts = random_opts(rng, mode)
+                if mode == "launcher" and pos == 0 and opts.get("at_instance", 1) == 1:
+                    continue
+                nested = None if opts.get("at_instance") else rng.choice([None, None, "if"])
+                cases.append(build_program(stmts, pos, kind, mode, nested, opts))
     return cases
 
 
@@ -263,6 +396,7 @@ class _R:
     st = None
     round = None
     round_ctx = None
+    frame = None
 
 
 def worker_init():
@@ -287,9 +421,14 @@ def worker_init():
         "push_left": sm._push_left_internal_event,
         "abort": sm._abort_flow,
         "finish": sm._finish_flow,
+        "start_flow": sm._start_flow,
+        "create_ref": sm._create_event_reference,
     }
     rm.init()
     install()
+    # run-time tie of the CoreVM frame theorem vm_advance_frame: wraps the CURRENT statemachine._advance_head_front (nothing else here patches it)
+    from ..translate.c10_frame import FrameRecorder
+    _R.frame = FrameRecorder().install(sm)
 
 
 def install():
@@ -316,6 +455,15 @@ def install():
             return nh
         except Exception as e:  # noqa
             rec["exc"] = type(e).__name__
+            st["errs"].append([flow_state.uid, flow_config.id, "slide", type(e).__name__])
+            try:  # hypothesis `Leafish1` of the Lean theorem vm_leaf_error_never_propagates, evaluated on the real FlowState at the raise
+                par = state.flow_states.get(flow_state.parent_uid) if flow_state.parent_uid is not None else None
+                leaf = (not flow_state.child_flow_uids and not flow_state.action_uids
+                        and (flow_state.parent_uid is None or (par is not None and (flow_state.activated != 0 or flow_state.uid in par.child_flow_uids)))
+                        and not any(fs.context is flow_state.context for u, fs in state.flow_states.items() if u != flow_state.uid))
+                st["leaf"].append(bool(leaf))
+            except Exception:  # noqa
+                pass
             raise
         finally:
             if rnd is not None and _R.round is rnd:
@@ -345,7 +493,15 @@ def install():
                     rec["evals"].append([])
         if _R.round is not None:
             _R.round.moved(head)
-        return O["head_changed"](state, flow_state, head)
+        try:
+            return O["head_changed"](state, flow_state, head)
+        except Exception as e:  # noqa  -- the event name of the match statement the head arrived at could not be computed
+            if _R.cur is None and st is not None:
+                # raised by a position change OUTSIDE slide (head.position += 1 of _advance_head_front): the error of this instance
+                st["errs"].append([flow_state.uid, flow_state.flow_id, "advance", type(e).__name__])
+            if _R.round is not None:
+                _R.round.err_head = head.uid
+            raise
 
     def eval_w(expr, context):
         try:
@@ -369,6 +525,9 @@ def install():
                 raise Budget("internal events")
             if event.name == "ColangError":
                 st["colang_errors"] += 1
+            elif event.name == "FlowFailed":
+                st["failed_uids"].append(event.arguments.get("source_flow_instance_uid"))
+                st["failed_flows"].append(str(event.arguments.get("flow_id")))
         rnd = _R.round
         if rnd is None:
             return O["pie"](state, event)
@@ -435,6 +594,8 @@ def install():
         try:
             s = O["score"](state, flow_state, head, event)
         except Exception as e:  # noqa
+            if st is not None:
+                st["errs"].append([flow_state.uid, flow_state.flow_id, "match", type(e).__name__])
             if st is not None and st.get("scan") is not None:
                 st["scan"]["scores"].append([flow_state.uid, head.uid, "err"])
             if _R.round is not None:
@@ -443,6 +604,20 @@ def install():
         if st is not None and st.get("scan") is not None:
             st["scan"]["scores"].append([flow_state.uid, head.uid, "pos" if s > 0.0 else ("neg" if s < 0.0 else "zero")])
         return s
+
+    def handling_w(name):
+        # _start_flow / _create_event_reference (called from _handle_event_matching): a raise here is an error of the matched head's flow
+        def w(state, flow_state, *a, **kw):
+            try:
+                return O[name](state, flow_state, *a, **kw)
+            except Exception as e:  # noqa
+                st = _R.st
+                if st is not None:
+                    st["errs"].append([flow_state.uid, flow_state.flow_id, "handle", type(e).__name__])
+                if _R.round is not None and flow_state.heads:
+                    _R.round.err_head = next(iter(flow_state.heads.values())).uid
+                raise
+        return w
 
     def rtc_w(state, ev):
         st = _R.st
@@ -458,6 +633,11 @@ def install():
         except Exception as e:  # noqa
             if st is not None:
                 st["rtc_exc"].append(type(e).__name__)
+                try:  # where it was raised: the statemachine functions on the stack, outermost first (structural signature of findings)
+                    import traceback as _tb
+                    st["rtc_site"].append([f.name for f in _tb.extract_tb(e.__traceback__) if f.filename.endswith("statemachine.py")][:6])
+                except Exception:  # noqa
+                    pass
             raise
         finally:
             _R.round = None
@@ -478,6 +658,8 @@ def install():
     sm._push_internal_event = push_w
     sm._push_left_internal_event = push_left_w
     sm._abort_flow = abort_w
+    sm._start_flow = handling_w("start_flow")
+    sm._create_event_reference = handling_w("create_ref")
     sm._finish_flow = finish_w
 
 
@@ -536,10 +718,14 @@ def run_impl(case):
         obs["classify_error"] = f"{type(e).__name__}: {str(e)[:200]}"
         return obs
     obs["rounds"], obs["rounds_full"], obs["round_orphans"] = [], [], []
+    fr = _R.frame
+    if fr is not None:
+        fr.calls = fr.checked = fr.not_closed = fr.raised = fr.bystanders = 0
+        fr.violations = []
     signal.signal(signal.SIGVTALRM, _vt_alarm)
     for ev in case["events"]:
         st = {"slides": 0, "moves": 0, "ievents": 0, "colang_errors": 0, "rtc_exc": [], "samples": [], "scans": [], "scan": None,
-              "over_bound": [], "max_iter_ratio": 0.0, "budget": 10 ** 9, "rounds": []}
+              "over_bound": [], "max_iter_ratio": 0.0, "budget": 10 ** 9, "rounds": [], "errs": [], "failed_uids": [], "failed_flows": [], "rtc_site": [], "leaf": []}
         st["budget"] = BUDGET_FACTOR * (sum(len(p) for p in progs.values()) + 10)
         _R.st = st
         call = {"event": ev["type"], "out": [], "pe_exc": None, "budget_hit": None}
@@ -556,7 +742,25 @@ def run_impl(case):
             signal.setitimer(signal.ITIMER_VIRTUAL, 0)
             _R.st = None
             _R.cur = None
-        call.update({k: st[k] for k in ("slides", "moves", "ievents", "colang_errors", "rtc_exc", "max_iter_ratio")})
+        call.update({k: st[k] for k in ("slides", "moves", "ievents", "colang_errors", "rtc_exc", "rtc_site", "max_iter_ratio")})
+        # every flow INSTANCE in which a statement raised: what became of it by the end of this call
+        call["errs"] = len(st["errs"])
+        call["leaf"] = list(st["leaf"])
+        call["failed_flows"] = sorted(set(st["failed_flows"]))
+        call["err_types"] = sorted({e[3] for e in st["errs"]})
+        call["unfailed"] = []
+        if not (call["budget_hit"] or call["pe_exc"] or state is None):
+            seen_uid = set()
+            for uid, fid, phase, _t in st["errs"]:
+                if uid in seen_uid:
+                    continue
+                seen_uid.add(uid)
+                fs = state.flow_states.get(uid)
+                status = fs.status.name if fs is not None else "REMOVED"
+                nheads = len(fs.heads) if fs is not None else 0
+                announced = uid in st["failed_uids"]
+                if status not in ("STOPPED", "REMOVED") or nheads or not announced:
+                    call["unfailed"].append({"flow": fid, "phase": phase, "status": status, "heads": nheads, "flow_failed_event": announced})
         call["budget"] = BUDGET_FACTOR * (sum(len(p) for p in progs.values()) + 10) if progs else None
         obs["calls"].append(call)
         room = SLIDE_SAMPLE_CAP - len(obs["samples"])
@@ -571,6 +775,8 @@ def run_impl(case):
         if call["budget_hit"] or call["pe_exc"] or state is None:
             break
     _R.round_ctx = None
+    if fr is not None:
+        obs["frame"] = dict(fr.summary(), first=[list(v) for v in fr.violations[:3]])
     obs["round_orphans"] = obs["round_orphans"][:3]
     obs["flows"] = progs or {}
     obs["py_acyclic"] = {k: py_acyclic(v) for k, v in (progs or {}).items()}
@@ -898,6 +1104,23 @@ def oracle(case, obs):
     if meta.get("expect_error") and meta["kind"] != "abort":
         if sum(c["colang_errors"] for c in obs["calls"]) == 0:
             return f"no ColangError event was produced for the injected {meta['kind']} error"
+    for c in obs["calls"]:
+        # "fails only that flow": the instance in which the statement raised is failed (stopped, no head left, FlowFailed processed)
+        # by the end of the call that processed the event
+        for u in c.get("unfailed", []):
+            return (f"flow {u['flow']} raised a runtime error ({u['phase']} phase) while processing {c['event']} but was not failed in that call: "
+                    f"status {u['status']}, {u['heads']} head(s) left, FlowFailed event processed: {u['flow_failed_event']}")
+        # "is reported as a ColangError event": one report per raised error, processed before the call returns
+        if c.get("errs", 0) > c["colang_errors"]:
+            return (f"{c['errs']} runtime error(s) ({', '.join(c.get('err_types', []))}) were raised while processing {c['event']} but only "
+                    f"{c['colang_errors']} ColangError event(s) were processed in that call")
+    # "fails only that flow ... unrelated flows": run-time check of the frame theorem vm_advance_frame around every top-level
+    # _advance_head_front call (harness/translate/c10_frame.py)
+    fr = obs.get("frame") or {}
+    if fr.get("violations"):
+        first = fr["first"][0]
+        return (f"an instance outside the family of the advanced flow(s) {first[0]} changed during _advance_head_front: "
+                f"flow {first[1]}: {first[2]}")
     return None
 
 
@@ -910,6 +1133,20 @@ def signature(case, obs, msg):
         # the error is raised by _compute_event_matching_score (outside the try/except of _advance_head_front)
         if any(c["event"] == "M" and c["rtc_exc"] for c in obs.get("calls", [])):
             return "error-raised-while-matching"
+    if "changed during _advance_head_front" in msg:
+        return "frame:bystander-changed"
+    if "run_to_completion raised" in msg or "(advance phase)" in msg or "(handle phase)" in msg or \
+            ("ColangError event(s) were processed in that call" in msg and any(c.get("rtc_site") for c in obs.get("calls", []))):
+        # an exception left run_to_completion (the observer missed the event / the instance that raised was not failed / no ColangError
+        # was processed by the state machine): WHERE it was raised (outermost statemachine frames) is the structural signature
+        for c in obs.get("calls", []):
+            for site in c.get("rtc_site", []):
+                if "_handle_event_matching" in site:
+                    return "error-raised-while-handling-match"
+                if "_process_internal_events_without_default_matchers" in site:
+                    return "error-raised-while-processing-internal-event"
+                if "_advance_head_front" in site and "slide" not in site and ("position" in site or "_flow_head_changed" in site):
+                    return "error-raised-by-head-advance-outside-try"
     if "did not terminate within the step budget" in msg and meta.get("cascade"):
         return "activated-flow-fails-while-starting-by-pattern-failure"
     if "did not terminate within the step budget" in msg and meta["mode"] in ("active", "launcher") and meta["phase"] == "slide" \
@@ -925,7 +1162,9 @@ def nontrivial(case, obs):
         return False
     if case["meta"].get("quick"):
         return True
-    return any(c["colang_errors"] or c["rtc_exc"] or c["budget_hit"] for c in obs["calls"]) or any(r["exc"] for r in obs["samples"])
+    if case["meta"]["kind"] == "abort" and any("faulty" in c.get("failed_flows", []) for c in obs["calls"]):
+        return True  # the `abort` statement was reached: the faulty flow failed without an exception
+    return any(c["colang_errors"] or c["rtc_exc"] or c["budget_hit"] or c.get("errs") for c in obs["calls"]) or any(r["exc"] for r in obs["samples"])
 
 
 def tags(case, obs):
@@ -939,6 +1178,13 @@ def tags(case, obs):
     t = ["kind:prog", "mode:" + meta["mode"], "err:" + meta["kind"], "phase:" + meta["phase"], "waits-before:" + str(min(meta["waits_before"], 3))]
     if meta.get("nested"):
         t.append("nested:" + meta["nested"])
+    if meta.get("at_instance"):
+        t.append("error-at-instance:" + str(meta["at_instance"]))
+    for k in ("relap", "obs_first"):
+        if meta.get(k):
+            t.append("opt:" + k)
+    if meta.get("obs_style"):
+        t.append("obs-style:" + meta["obs_style"])
     if meta.get("quick"):
         t.append("quick:" + meta["quick"])
     if "calls" in obs:
@@ -952,6 +1198,20 @@ def tags(case, obs):
             if r["exc"]:
                 t.append("slide-exc:" + r["exc"])
                 break
+        fr = obs.get("frame") or {}
+        if fr.get("checked"):
+            t.append("frame:checked")
+        if fr.get("not_closed"):
+            t.append("frame:not-closed")
+        if fr.get("violations"):
+            t.append("frame:violation")
+        lf = [x for c in obs["calls"] for x in c.get("leaf", [])]
+        if lf:
+            t.append("faulty-instance:leaf" if all(lf) else "faulty-instance:has-children-or-actions")
+        ne = sum(c.get("errs", 0) for c in obs["calls"])
+        t.append("errors-raised:" + (str(ne) if ne < 3 else "3+"))
+        if sum(1 for c in obs["calls"] if c.get("errs", 0)) > 1:
+            t.append("errors-in-several-calls")
         if not all(obs["py_acyclic"][k] or obs["py_ranked"][k] for k in obs["py_acyclic"]):
             t.append("has-cyclic-flow")
         mx = max([c["slides"] / c["budget"] for c in obs["calls"] if c["budget"]] or [0])
